@@ -46,7 +46,7 @@ impl Sess {
         let seen = run::snapped_to_imp(&s);
         let big = mag > 4096.0;
         self.events.push(format!(
-            "{{\"ev\":\"def\",\"name\":{},\"k\":{},\"big\":{},\"touch\":{},\"mp\":{},{}}}",
+            "{{\"ev\":\"def\",\"name\":{},\"k\":{},\"big\":{},\"touch\":{},\"opaque\":false,\"nedges\":0,\"mp\":{},{}}}",
             run::jstr(name),
             k,
             big,
@@ -125,7 +125,9 @@ impl Sess {
         let n = vx.n_edges + vy.n_edges;
         let px = if vx.n_polys == 1 { px } else { 'm' };
         let py = if vy.n_polys == 1 { py } else { 'm' };
-        let mag = self.mag;
+        // the deviation figure is relative to the magnitude of THIS call's operands (never to
+        // session state, so that equal calls are recorded equally wherever they occur)
+        let mag = vx.mag.max(vy.mag);
         if f32_ {
             let (o, r, s, d) = Self::call_t::<f32>(vx.g32.as_ref().expect("f32 value"), vy.g32.as_ref().expect("f32 value"), vx.k, mag, n, op, px, py);
             self.events.push(Self::call_event(&res, op, x, y, px, py, "f32", 0, &o, &s, &d));
@@ -142,8 +144,10 @@ impl Sess {
 
     /// the same calls from several threads at once (f64); events carry the thread number
     pub fn threaded_calls(&mut self, calls: &[(String, String, String)], threads: usize, reps: usize) {
-        let mut handles = vec![];
-        let mag = self.mag;
+        // every worker is a REAL fresh thread making its calls directly (its own thread-local state,
+        // its own call history); a watchdog on the channel turns a thread that never finishes into
+        // outcome "timeout"
+        let mut rxs = vec![];
         for t in 0..threads {
             let mut work = vec![];
             for r in 0..reps {
@@ -151,20 +155,41 @@ impl Sess {
                 let (vx, vy) = (self.vals[&c.1].clone(), self.vals[&c.2].clone());
                 work.push((c.clone(), vx, vy));
             }
-            handles.push(std::thread::spawn(move || {
-                let mut out = vec![];
+            let (tx, rx) = std::sync::mpsc::channel();
+            let _ = std::thread::Builder::new().stack_size(64 << 20).spawn(move || {
                 for (c, vx, vy) in work {
                     let n = vx.n_edges + vy.n_edges;
-                    let (o, _r, s, d) = Sess::call_t::<f64>(vx.g64.as_ref().unwrap(), vy.g64.as_ref().unwrap(), vx.k, mag, n, &c.0, 'm', 'm');
-                    out.push((c, o, s, d));
+                    let mag = vx.mag.max(vy.mag);
+                    let (x, y) = (vx.g64.as_ref().unwrap(), vy.g64.as_ref().unwrap());
+                    let budget = 8 * (n as u64) * (n as u64) + 64;
+                    let (xd0, yd0) = (run::digest(x), run::digest(y));
+                    let (o, r) = run::call(x, y, run::op_of(&c.0), 'm', 'm', budget);
+                    let d = [xd0, run::digest(x), yd0, run::digest(y)];
+                    let s = r.as_ref().map(|m| run::snap(m, vx.k, mag));
+                    if tx.send((c, o, s, d)).is_err() {
+                        return;
+                    }
                 }
-                out
-            }));
+            });
+            rxs.push((t, rx, reps));
         }
-        for (t, h) in handles.into_iter().enumerate() {
-            for (c, o, s, d) in h.join().expect("worker thread") {
-                let res = self.fresh();
-                self.events.push(Self::call_event(&res, &c.0, &c.1, &c.2, 'm', 'm', "f64", t + 1, &o, &s, &d));
+        for (t, rx, reps) in rxs {
+            for _ in 0..reps {
+                match rx.recv_timeout(std::time::Duration::from_secs(30)) {
+                    Ok((c, o, s, d)) => {
+                        let res = self.fresh();
+                        self.events.push(Self::call_event(&res, &c.0, &c.1, &c.2, 'm', 'm', "f64", t + 1, &o, &s, &d));
+                    }
+                    Err(_) => {
+                        HUNG.store(true, std::sync::atomic::Ordering::SeqCst);
+                        let res = self.fresh();
+                        let o = run::Outcome { outcome: "timeout".into(), msg: "worker thread did not deliver within 30 s".into(), popped: 0 };
+                        let c = &calls[t % calls.len()];
+                        let d = [String::new(), String::new(), String::new(), String::new()];
+                        self.events.push(Self::call_event(&res, &c.0, &c.1, &c.2, 'm', 'm', "f64", t + 1, &o, &None, &d));
+                        break;
+                    }
+                }
             }
         }
     }
@@ -249,6 +274,11 @@ pub fn canon_triple(fam: &str, kmax: i64, rng: &mut Rng) -> [Vec<(Vec<P>, Vec<Ve
     if fam == "frames" {
         let (a, b) = gen::frames_pair(rng);
         let (_, c) = gen::frames_pair(rng);
+        return [a, b, c];
+    }
+    if fam == "latraw" {
+        let (a, b) = gen::latraw_pair(rng);
+        let (c, _) = gen::latraw_pair(rng);
         return [a, b, c];
     }
     let fam = if fam == "lat" { "aff-cx" } else { fam };
@@ -479,7 +509,9 @@ pub fn sess_f32(sid: u64, fam: &str, seed: u64, o: &Opts) -> Sess {
     let mut rng = Rng::new(seed);
     let mut s = Sess::new(sid, "f32", fam, seed);
     s.touch = fam.starts_with("big");
-    let fr = frame_for(fam, &mut rng);
+    let fr0 = frame_for(fam, &mut rng);
+    // both float types at a random power-of-two scale (exact in f32 and f64 alike)
+    let fr = if fr0 == 0 && !fam.starts_with("big") { *rng.pick(&[0i32, 0, 0, -10, -20, -30, -45, 10, 20, 40]) } else { fr0 };
     let (a, b) = loop {
         let (ca, cb) = canon_pair(fam, o.kmax, &mut rng);
         let a = gen::present(&ca, gen::RANDOMISED, &mut rng);
@@ -566,7 +598,17 @@ pub fn sess_pure(sid: u64, fam: &str, seed: u64, o: &Opts) -> Sess {
     for (op, _) in run::OPS {
         s.call(op, "A", "B", 'm', 'm', false); // repeated
     }
-    s.threaded_calls(&calls, 8, 4);
+    // exactly translated copies (another binade): same relative geometry at another position
+    let d = (*rng.pick(&[4096i64, 2048, 1024, -4096]), *rng.pick(&[4096i64, 2048, -2048, 512]));
+    let at = gen::map_mp(&a, &|p| (p.0 + d.0, p.1 + d.1));
+    let bt = gen::map_mp(&b, &|p| (p.0 + d.0, p.1 + d.1));
+    s.def("At", &at, fr, &format!("\"rel\":\"translate\",\"of\":\"A\",\"d\":[{},{}]", d.0, d.1));
+    s.def("Bt", &bt, fr, &format!("\"rel\":\"translate\",\"of\":\"B\",\"d\":[{},{}]", d.0, d.1));
+    for (op, _) in run::OPS {
+        s.call(op, "At", "Bt", 'm', 'm', false);
+        calls.push((op.to_string(), "At".to_string(), "Bt".to_string()));
+    }
+    s.threaded_calls(&calls, 12, 6);
     for (op, _) in run::OPS {
         s.call(op, "A", "B", 'm', 'm', false); // repeated after the threads
     }
@@ -604,7 +646,7 @@ pub fn sess_history(sid: u64, fam: &str, seed: u64, o: &Opts) -> Sess {
         let mut digests = std::collections::HashSet::new();
         let small_op = *rng.pick(&["union", "int", "xor", "diff"]);
         for _ in 0..g {
-            let (_, r) = run::call(&sg, &tg, run::op_of(small_op), 'm', 'm', 10_000);
+            let (_, r) = run::call_guarded(&sg, &tg, run::op_of(small_op), 'm', 'm', 10_000, 20);
             digests.insert(r.map(|m| run::digest(&m)).unwrap_or_default());
         }
         s.events.push(format!("{{\"ev\":\"filler\",\"n\":{},\"op\":\"{}\",\"x\":\"S\",\"y\":\"T\",\"distinct\":{}}}", g, small_op, digests.len()));
@@ -626,6 +668,14 @@ pub fn sess_deg(sid: u64, fam: &str, seed: u64, o: &Opts) -> Sess {
         _ => vec![IPoly { ext: vec![], holes: vec![] }, IPoly { ext: vec![], holes: vec![vec![]] }],
     };
     s.def("E", &e, 0, BASE);
+    // the same degenerate presentation (repeated vertices, unclosed rings) against a real operand
+    let (_, cb) = canon_pair(fam, o.kmax.min(3), &mut rng);
+    let b = gen::present(&cb, gen::Present { rotate: true, reverse: true, shuffle: true, dups: true, close: false }, &mut rng);
+    s.def("B", &b, 0, BASE);
+    for (op, _) in run::OPS {
+        s.call(op, "A", "B", 'p', 'p', false);
+        s.call(op, "B", "A", 'm', 'm', rng.chance(1, 3));
+    }
     for (op, _) in run::OPS {
         s.call(op, "A", "E", 'p', 'p', false);
         s.call(op, "E", "A", 'p', 'p', false);
@@ -709,4 +759,83 @@ pub fn rerun(line: &str, sid: Option<u64>) -> String {
         }
     }
     s.finish()
+}
+
+/// The repository's own fixtures as sessions (kind "opaque"): operands are passed with their
+/// original float coordinates, which have no image in the integer domain, so only the laws that
+/// need no geometry apply (C03: every call returns within the event bound; C12: operands
+/// untouched, repeated calls identical). input lines: {"name":..,"A":[[[ [x,y],.. ]]],"B":..}
+fn smp_json(m: &MultiPolygon<f64>) -> String {
+    // coordinates as hex bit strings: TLC can compare them for equality without arithmetic
+    let ring = |r: &geo_types::LineString<f64>| format!("[{}]", r.0.iter().map(|c| format!("[\"{:016x}\",\"{:016x}\"]", c.x.to_bits(), c.y.to_bits())).collect::<Vec<_>>().join(","));
+    format!("[{}]", m.0.iter().map(|p| format!("[{}]", std::iter::once(p.exterior()).chain(p.interiors().iter()).map(ring).collect::<Vec<_>>().join(","))).collect::<Vec<_>>().join(","))
+}
+
+pub fn rec_fixtures(path: &str) {
+    use geo_types::{Coord, LineString, Polygon};
+    let text = std::fs::read_to_string(path).expect("fixtures file");
+    let mut sid = 1;
+    for line in text.lines().filter(|l| !l.trim().is_empty()) {
+        let v: serde_json::Value = serde_json::from_str(line).expect("json");
+        let mk = |x: &serde_json::Value| -> MultiPolygon<f64> {
+            MultiPolygon(
+                x.as_array()
+                    .unwrap()
+                    .iter()
+                    .map(|p| {
+                        let rings: Vec<LineString<f64>> = p.as_array().unwrap().iter().map(|r| LineString(r.as_array().unwrap().iter().map(|q| Coord { x: q[0].as_f64().unwrap(), y: q[1].as_f64().unwrap() }).collect())).collect();
+                        let mut it = rings.into_iter();
+                        let ext = it.next().unwrap_or_else(|| LineString(vec![]));
+                        Polygon::new(ext, it.collect())
+                    })
+                    .collect(),
+            )
+        };
+        let (a, b) = (mk(&v["A"]), mk(&v["B"]));
+        // optional generator-claimed obvious results (operands that only touch): {"int":mp,"union":mp,"xor":mp,"diffAB":mp,"diffBA":mp}
+        let expect = |op: &str, x: &str| -> String {
+            let key = match (op, x) { ("diff", "A") => "diffAB", ("diff", _) => "diffBA", (o, _) => o };
+            match v.get("expect").and_then(|e| e.get(key)) {
+                Some(e) => format!("true,\"expect\":{}", smp_json(&mk(e))),
+                None => "false,\"expect\":[]".to_string(),
+            }
+        };
+        let ne = |m: &MultiPolygon<f64>| -> usize { m.0.iter().map(|p| std::iter::once(p.exterior()).chain(p.interiors().iter()).map(|r| r.0.windows(2).filter(|w| w[0] != w[1]).count()).sum::<usize>()).sum() };
+        let (na, nb) = (ne(&a), ne(&b));
+        let n = na + nb;
+        for (x, y, gx, gy, nx, ny) in [("A", "B", &a, &b, na, nb), ("B", "A", &b, &a, nb, na)] {
+            for (op, _) in run::OPS {
+                // one session per (fixture, operand order, operation): the call, and the same call again
+                let mut s = Sess::new(sid, "opaque", &format!("fixture/{}/{}{}/{}", v["name"].as_str().unwrap_or("?"), x, y, op), 0);
+                for (name, ne_, g) in [(x, nx, gx), (y, ny, gy)] {
+                    s.events.push(format!("{{\"ev\":\"def\",\"name\":\"{}\",\"k\":0,\"big\":false,\"touch\":false,\"opaque\":true,\"nedges\":{},\"digest\":\"{}\",\"mp\":[],\"rel\":\"base\"}}", name, ne_, run::digest(g)));
+                }
+                let exp = expect(op, x);
+                for _rep in 0..2 {
+                    if HUNG.load(std::sync::atomic::Ordering::SeqCst) {
+                        break;
+                    }
+                    let budget = 8 * (n as u64) * (n as u64) + 64;
+                    let (xd0, yd0) = (run::digest(gx), run::digest(gy));
+                    let (o, r) = run::call_guarded(gx, gy, run::op_of(op), 'm', 'm', budget, 60);
+                    if o.outcome == "timeout" {
+                        HUNG.store(true, std::sync::atomic::Ordering::SeqCst);
+                    }
+                    let bits = r.as_ref().map(|m| run::digest(m)).unwrap_or_default();
+                    let res = s.fresh();
+                    s.events.push(format!(
+                        "{{\"ev\":\"call\",\"res\":\"{}\",\"op\":\"{}\",\"x\":\"{}\",\"y\":\"{}\",\"px\":\"m\",\"py\":\"m\",\"F\":\"f64\",\"thr\":0,\"outcome\":\"{}\",\"msg\":{},\"popped\":{},\"mp\":[],\"bits\":\"{}\",\"xd\":[\"{}\",\"{}\"],\"yd\":[\"{}\",\"{}\"],\"smp\":{},\"hasexpect\":{}}}",
+                        res, op, x, y, o.outcome, run::jstr(&o.msg), o.popped.min(1 << 30), bits, xd0, run::digest(gx), yd0, run::digest(gy),
+                        r.as_ref().map(smp_json).unwrap_or_else(|| "[]".into()), exp
+                    ));
+                }
+                println!("{}", s.finish());
+                sid += 1;
+                if HUNG.load(std::sync::atomic::Ordering::SeqCst) {
+                    eprintln!("HUNG in fixture session {}", sid);
+                    std::process::exit(4);
+                }
+            }
+        }
+    }
 }
